@@ -70,12 +70,12 @@ package keygen
 //@ define ecKgWF(round) = wfParams(round.Parameters) && issecp(round.Parameters.ec) && wfIDs(round.Parameters.parties.partyIDs) && round.temp != nil && round.save != nil && round.out != nil && round.end != nil && 2 <= kgN(round) && kgN(round) <= 256 && 0 <= kgI(round) && kgI(round) < kgN(round) && len(round.ok) == kgN(round) && len(round.temp.kgRound1Messages) == kgN(round) && len(round.temp.kgRound2Message1s) == kgN(round) && len(round.temp.kgRound2Message2s) == kgN(round) && len(round.temp.kgRound3Messages) == kgN(round) && len(round.temp.KGCs) == kgN(round) && len(round.save.PaillierPKs) == kgN(round) && len(round.save.NTildej) == kgN(round) && len(round.save.H1j) == kgN(round) && len(round.save.H2j) == kgN(round) && len(round.save.BigXj) == kgN(round) && len(round.save.Ks) == kgN(round) && 0 <= round.Parameters.threshold && round.Parameters.threshold < 256
 //@ define kg1slot(m) = (!isnil(m) && istype(msgcontent(m), "*ecdsa/keygen.KGRound1Message") && cast(msgcontent(m), "*ecdsa/keygen.KGRound1Message") != nil && msgfrom(m) != nil)
 //@ func (*round2).Start$1
-//@   props C06 C05
+//@   props C06 C05 C09
 //@   requires 0 <= _j && _j < len(dlnProof1FailCulprits) && !isnil(_msg) && wg != nil
 //@   modifies dlnProof1FailCulprits[*]
 //@   ensures [C05.a-failing-dln-proof-blames-its-sender] forall k in 0..len(dlnProof1FailCulprits) :: (dlnProof1FailCulprits[k] == old(dlnProof1FailCulprits[k]) || (k == _j && dlnProof1FailCulprits[k] == msgfrom(_msg)))
 //@ func (*round2).Start$2
-//@   props C06 C05
+//@   props C06 C05 C09
 //@   requires 0 <= _j && _j < len(dlnProof2FailCulprits) && !isnil(_msg) && wg != nil
 //@   modifies dlnProof2FailCulprits[*]
 //@   ensures [C05.a-failing-dln-proof-blames-its-sender] forall k in 0..len(dlnProof2FailCulprits) :: (dlnProof2FailCulprits[k] == old(dlnProof2FailCulprits[k]) || (k == _j && dlnProof2FailCulprits[k] == msgfrom(_msg)))
@@ -83,7 +83,7 @@ package keygen
 // the ring-Pedersen modulus announced in a round-1 message has exactly 2048 bits (checked by round 2 before it is stored)
 //@ define kgNT(m) = beint(bytes(cast(msgcontent(m), "*ecdsa/keygen.KGRound1Message").NTilde))
 //@ func (*round2).Start
-//@   props C06 C05 C03
+//@   props C06 C05 C03 C09
 //@   requires round != nil && round.round1 != nil && round.round1.base != nil && ecKgWF(round)
 //@   requires [caller-config] round.Parameters.concurrency > 0 && round.Parameters.concurrency <= 1048576
 //@   requires [round-1-complete] forall j in 0..kgN(round) :: kg1slot(round.temp.kgRound1Messages[j])
